@@ -20,6 +20,13 @@ type c16Runner struct {
 	dcMP      int // cases accepted through the repeated-MP-overrun alternative
 }
 
+// repeatedMPOverrunMayAbort: an attribute whose header or value runs past the attribute block whose
+// type octet repeats an MP attribute. The overrun sentence of the property is unconditional ("ends
+// attribute iteration but the NLRI is still delivered") and an attribute that is not delimited inside
+// the block is not an "occurrence" that could be "repeated", so the abort reading is NOT accepted
+// (it was, as a DON'T-CARE, until a seeded change that swapped the two checks slipped through).
+const repeatedMPOverrunMayAbort = false
+
 func newC16Runner() *c16Runner { return &c16Runner{rec: newUpdRec()} }
 
 // judge decodes body and returns the aspect of a disagreement ("" if none).
@@ -37,7 +44,7 @@ func (r *c16Runner) judge(body []byte) (aspect, msg string) {
 		return "panic-below-64k", fmt.Sprintf("Decode panicked on a %d byte body: %v", len(body), pan)
 	}
 	aspect, msg = updDiff(&r.p, r.got, r.want, false)
-	if aspect != "" && r.p.OverrunIsRepeatedMP {
+	if aspect != "" && r.p.OverrunIsRepeatedMP && repeatedMPOverrunMayAbort {
 		alt := r.p.AltRepeatedMP()
 		if a, _ := updDiff(alt, r.got, updExpected(alt, nil), false); a == "" {
 			r.dcMP++
